@@ -233,7 +233,7 @@ def r5(ctx):
     ismaster = lambda x: mentions_name(x, "master_address") or mentions_name(x, "required_master_addr")
     legit = [
         ("required address is None", g_is(ismaster, "None")),
-        ("address == required", lambda g: g.kind == "rel" and g.op == "Eq" and (ismaster(g.a) or ismaster(g.b)) and (mentions_field(g.a, "link") or mentions_field(g.b, "link"))),
+        ("address == required", lambda g: g.kind == "rel" and g.op == "Eq" and (ismaster(g.a) or ismaster(g.b)) and any(mentions_field(x, "link") for side_ in (g.a, g.b) for x in resolve_defs(body, ctx.sym(body), side_, depth=3))),
         ("request carries no address", lambda g: g.kind in ("is", "oneof") and not ismaster(g.a) and (
             (g.kind == "is" and g.name in ("None", "LinkLayerMessage")) or (g.kind == "oneof" and set(g.name) <= {"None", "LinkLayerMessage"})) and not mentions_field(g.a, "broadcast") and not mentions_field(g.a, "addr")),
     ]
